@@ -27,6 +27,11 @@ def envField (j : Json) (k : String) : Except String (String → Float) := do
   let d ← dictOfJson (← field j k)
   pure (lookupD d)
 
+/-- `k in coefs` for the dict sent under field `k` -/
+def presentField (j : Json) (k : String) : Except String (String → Bool) := do
+  let d ← dictOfJson (← field j k)
+  pure (fun key => d.any (fun kv => kv.1 == key))
+
 def dictToJson (d : List (String × Float)) : Json :=
   Json.arr (d.map fun (k, v) => Json.arr #[Json.str k, fl v]).toArray
 
@@ -88,16 +93,20 @@ def step (st : Unit) (j : Json) : Unit × Json :=
           ("tableSymbols", strList tableSymbols), ("tableLabels", strList tableLabels)]))
     | "surface" =>       -- generated code and hand spec at each point
         let c ← envField j "coefs"
+        let pr ← presentField j "coefs"
         let lam ← floatOfJson (← field j "lam")
         let pts ← pairsField j "pts"
         pure (okJson (Json.mkObj [
-          ("code", flist (pts.map fun (a, p) => aberration_surface a p lam c)),
+          ("code", flist (pts.map fun (a, p) => aberration_surface_guarded a p lam c pr)),
+          ("unguarded", flist (pts.map fun (a, p) => aberration_surface a p lam c)),
           ("spec", flist (pts.map fun (a, p) => chi a p lam c))]))
     | "grads" =>
         let c ← envField j "coefs"
+        let pr ← presentField j "coefs"
         let pts ← pairsField j "pts"
-        let pg := pts.map fun (a, p) => aberration_surface_polar_gradients a p c
-        let cg := pts.map fun (a, p) => aberration_surface_cartesian_gradients a p c
+        -- the faithful translation, guards included
+        let pg := pts.map fun (a, p) => aberration_surface_polar_gradients_guarded a p c pr
+        let cg := pts.map fun (a, p) => aberration_surface_cartesian_gradients_guarded a p c pr
         pure (okJson (Json.mkObj [
           ("dk", flist (pg.map (·.1))), ("dphi", flist (pg.map (·.2))),
           ("dx", flist (cg.map (·.1))), ("dy", flist (cg.map (·.2)))]))
@@ -105,11 +114,10 @@ def step (st : Unit) (j : Json) : Unit × Json :=
         let lam ← floatOfJson (← field j "lam")
         let pts ← pairsField j "pts"
         let labels ← (← arrField j "labels").toList.mapM (·.getStr?)
-        let rows := pts.map fun (a, p) =>
-          let cols := aberration_surface_cartesian_basis a p lam
-          labels.map (basisLookup CARTESIAN_LABELS cols)
-        if rows.all (fun r => r.all Option.isSome) then
-          pure (okJson (Json.arr (rows.map fun r => flist (r.map (·.getD 0))).toArray))
+        -- the loop of the source translated over the dynamic label list (column order is the source's)
+        let rows := pts.map fun (a, p) => aberration_surface_cartesian_basis_list a p lam labels
+        if rows.all Option.isSome then
+          pure (okJson (Json.arr (rows.map fun r => flist (r.getD [])).toArray))
         else pure (errJson "UnknownLabel")
     | "p2c" =>
         let c ← envField j "coefs"
